@@ -262,11 +262,42 @@ def watchdog_cases(chk):
         cases.append(wd(ctx, [("start", True, False), ("stop", False)], [("check", True)], xctx="loop", sched="midcheck"))
     if chk.tier == "thorough":
         base = list(cases)
+        # every configuration of the theorem's family (mirror of Conc.current_configs), under each way of
+        # holding the polling thread and with both kinds of source
+        for cfg in theorem_family():
+            for sched in ("free", "midcheck", "holding"):
+                if sched != "free" and not any(k[0] == "start" for k in cfg["main"]):
+                    continue
+                for src in ("sync", "async"):
+                    cases.append(wd(cfg["ctx"], cfg["main"], cfg["other"], sched=sched, src=src))
         for rep in range(6):
             for c in base:
                 c2 = dict(c, src=rng.choice(["sync", "async"]), rep=rep + 1, jitter=rng.random() * 0.02)
                 cases.append(c2)
     return cases
+
+
+def theorem_family():
+    """Python mirror of Conc.current_configs (its size is compared with the model's on every run)."""
+    B = [False, True]
+    starts = [[("start", False, False)], [("start", True, False)], [("start", True, True)]]
+    single = [[("check", f)] for f in B] + [[("eval",)]] + [[("stop", t)] for t in B] + starts
+    start_stop = [st + [("stop", t)] for st in starts for t in B]
+    start_check_stop = [[("start", i, False), ("check", f), ("stop", t)] for i in B for f in B for t in B]
+    second = [[("check", f)] for f in B] + [[("eval",)]] + [[("stop", t)] for t in B]
+    out = []
+    for ctx in ("plain", "loop"):
+        for m in single + start_stop + start_check_stop:
+            out.append({"ctx": ctx, "main": m, "other": []})
+    for ctx in ("plain", "loop"):
+        for m in single + start_stop:
+            for o in second:
+                out.append({"ctx": ctx, "main": m, "other": o})
+    for ctx in ("plain", "loop"):
+        for m in starts:
+            for i in B:
+                out.append({"ctx": ctx, "main": m, "other": [("start", i, False)]})
+    return out
 
 
 def corpus_cases():
@@ -880,12 +911,21 @@ def run_watchdog(case, T):
     for th in ths:
         th.join(max(0.0, deadline - time.time()))
     returned = not any(th.is_alive() for th in ths)
+    hung_at_T = [n for n, th in zip(("main", "other"), ths) if th.is_alive()]
+    late = False
+    if not returned:
+        # still blocked after T: a deadlock stays blocked, a starved machine eventually gets there
+        for th in ths:
+            th.join(max(0.0, deadline + T - time.time()))
+        late = not any(th.is_alive() for th in ths)
+        returned = late
     elapsed = round(time.time() - t0, 3)
     poll = getattr(hr, "_thread", None)
     evs = events[:400]
     res = {"returned": returned, "elapsed": elapsed, "raised": {k: v for k, v in box.items() if v},
            "events": evs if all(e[0] >= 0 for e in evs) else None,
            "progress": progress[:], "poller_alive_after": bool(poll and poll.is_alive()),
+           "returned_late": late, "blocked_at_T": hung_at_T,
            "hung": [n for n, th in zip(("main", "other"), ths) if th.is_alive()]}
     # let everything that is still around run out
     gate.set()
@@ -1108,6 +1148,9 @@ def judge_watchdog(chk, c, r, mv, replay):
             chk.corr_break("harness could not run a watchdog case", strip(c), impl=r, theorems=THEOREMS)
         return
     chk.count("watchdog:returned" if r["returned"] else "watchdog:HUNG")
+    if r.get("returned_late"):
+        chk.count("watchdog:returned_late(>%.0fs)" % T_HANG)
+        chk.notes.append("slow, not hung: %s returned after %.1fs" % (json.dumps(strip(c))[:200], r["elapsed"]))
     if isinstance(mv, dict):
         chk.count("model_states:<=%d" % (10 ** len(str(mv.get("states", 0)))))
     if not r["returned"]:
@@ -1118,7 +1161,7 @@ def judge_watchdog(chk, c, r, mv, replay):
         except Exception:  # noqa: BLE001
             pass
         chk.violation("a blocking entry point did not return within %.0fs in this calling context: %s still blocked "
-                      "after %s" % (T_HANG, "/".join(r["hung"]), json.dumps(r["progress"])),
+                      "after %s" % (2 * T_HANG, "/".join(r["hung"]), json.dumps(r["progress"])),
                       strip(c), impl=r, model=model)
     elif r["raised"]:
         chk.violation("a blocking entry point raised in this calling context instead of returning: %s"
@@ -1237,13 +1280,15 @@ def run(chk):
                 "(b) every entry point x {plain thread, running loop} alone, start;stop, start;check;stop, with a second "
                 "caller, racing starts, with the polling thread free / held in source.load() / held in set_policy, sync "
                 "and async sources, failing sources: returned within %.0fs or not, vs the lock model's verdict for the "
-                "configuration; (c) lock skeleton of the source vs the model's. non-trivial = a rule applied (a), every "
+                "configuration, and the observed sequence of lock acquisitions/releases must be a run of the model "
+                "(thorough: every configuration of the theorem's family x {free, mid-check, holding} x {sync, async "
+                "source}); (c) lock skeleton of the source vs the model's. non-trivial = a rule applied (a), every "
                 "(b)/(c) case; distinct = distinct (case, collaborator set, mode, flavour, request) / configuration" % T_HANG)
     chk.assumptions = [
         "threading.RLock/Lock/Event/Thread, asyncio.run and ThreadPoolExecutor behave as modelled (Conc.v section 1)",
         "the lock programs of Conc.v are hand-transcribed from loader.py/engine.py (tied by the skeleton comparison and "
         "the watchdog runs only): PARTIAL",
-        "a call that has not returned after %.0f s on this machine is taken to hang" % T_HANG,
+        "an entry point that has not returned after %.0f s on this machine is taken to hang" % (2 * T_HANG),
         "the implementation is observed on sampled schedules (plus two forced ones); only the model covers all schedules",
     ]
     corp = corpus_cases()
@@ -1251,10 +1296,13 @@ def run(chk):
     chk.extra["cases"] = {"corpus": len(corp), "watchdog": sum(1 for c in cases if c["kind"] == "watchdog"),
                           "flavours": sum(1 for c in cases if c["kind"] == "flavours"),
                           "gather": sum(1 for c in cases if c["kind"] == "gather")}
-    chk.exhaustive = False
     check_cases(chk, cases)
     fam = lib.dec(lib.run_model("conc", [lib.model_call("conc.family")])[0])
     chk.extra["theorem_family_size"] = fam
+    if fam != len(theorem_family()):
+        chk.notes.append("harness mirror of Conc.current_configs has %d configurations, the model %s"
+                         % (len(theorem_family()), fam))
+    chk.exhaustive = chk.tier == "thorough" and fam == len(theorem_family())
 
 
 if __name__ == "__main__" and "--child" in sys.argv:
